@@ -73,8 +73,7 @@ theorem lax_dagger_fields (f : LOHG O A) : f.dagger = ⟨f.targets, f.sources, f
 theorem lax_dagger_dagger (f : LOHG O A) : f.dagger.dagger = f := rfl
 
 theorem lax_dagger_wf (f : LOHG O A) : f.dagger.wf = f.wf := by
-  simp only [LOHG.wf, LOHG.dagger]
-  rw [Bool.and_right_comm]
+  exact Bool.and_right_comm _ _ _
 
 theorem lax_dagger_source (f : LOHG O A) : f.dagger.source = f.target := rfl
 
@@ -146,7 +145,8 @@ example : (OHG.spider ⟨[0, 0, 2], 3⟩ ⟨[1], 3⟩ ["a", "b", "c"] : Res (OHG
       .ok ⟨⟨[0, 0, 2], 3⟩, ⟨[1], 3⟩, HG.discrete ["a", "b", "c"]⟩ ∧
     (OHG.spider ⟨[0, 0, 2], 4⟩ ⟨[1], 3⟩ ["a", "b", "c"] : Res (OHG String String)) = .none ∧
     (OHG.spider ⟨[0, 0, 2], 3⟩ ⟨[1], 2⟩ ["a", "b", "c"] : Res (OHG String String)) = .none ∧
-    (⟨[0, 0, 2], 3⟩ : FinFun).WF ∧ (⟨[1], 3⟩ : FinFun).WF := by decide
+    (⟨[0, 0, 2], 3⟩ : FinFun).WF ∧ (⟨[1], 3⟩ : FinFun).WF :=
+  ⟨rfl, rfl, rfl, by decide, by decide⟩
 
 /-- the dagger of a spider is the spider with the legs exchanged -/
 theorem dagger_spider (s t : FinFun) (w : List O) :
@@ -203,7 +203,7 @@ example : (OHG.identity ["a", "b"] : Res (OHG String String)) =
     (OHG.twist ["a", "b"] ["c"] : Res (OHG String String)) =
       .ok ⟨⟨[1, 2, 0], 3⟩, ⟨[0, 1, 2], 3⟩, HG.discrete ["c", "a", "b"]⟩ ∧
     (OHG.halfSpider ⟨[1, 1, 0], 2⟩ ["a", "b"] : Res (OHG String String)) =
-      .ok ⟨⟨[1, 1, 0], 2⟩, ⟨[0, 1], 2⟩, HG.discrete ["a", "b"]⟩ := by decide
+      .ok ⟨⟨[1, 1, 0], 2⟩, ⟨[0, 1], 2⟩, HG.discrete ["a", "b"]⟩ := ⟨rfl, rfl, rfl⟩
 
 /-! ### spiders, lax -/
 
